@@ -271,7 +271,8 @@ def _outcome(thunk):
         return ('exc', type(e).__name__)
 
 
-def check_concurrent(obs, rng, cases, make_thunk, tag, p=None, seed=None):
+def check_concurrent(obs, rng, cases, make_thunk, tag, p=None, seed=None,
+                     extra_files=()):
     """Run make_thunk(case)() for every case alone, then all of them under
     the seeded baton scheduler; any difference is a violation
     ``concurrent:<tag>:...``. Returns True when everything agreed."""
@@ -286,7 +287,7 @@ def check_concurrent(obs, rng, cases, make_thunk, tag, p=None, seed=None):
         p = rng.choice([0.02, 0.08, 0.25])
     solo = [_outcome(make_thunk(c)) for c in cases]
     thunks = [make_thunk(c) for c in cases]
-    res, s = sched.concurrently(random.Random(seed), thunks, p)
+    res, s = sched.concurrently(random.Random(seed), thunks, p, extra_files)
     obs.count('concurrent:%s:groups' % tag)
     obs.count('concurrent:%s:workers' % tag, len(cases))
     obs.count('concurrent:scheduling_points', s.points)
